@@ -82,17 +82,16 @@ def model_checks(chk, tier):
 
     def one(j):
         return j, common.run_tlc(j[0], cfg=j[1], workers=2 if tier == "quick" else 4, timeout=800, want_cases=False, heap="3g")
-    out = {}
+    out, tl = {}, []
     with ThreadPoolExecutor(max_workers=par(6)) as ex:
         for (mod, cfg, expect), r in ex.map(one, jobs):
             if r.error or r.rc not in (0, 12, 13):
                 raise common.InfraError("%s/%s: TLC failed (%s)\n%s" % (mod, cfg, r.error or r.rc, r.out[-2000:]))
             if (r.violated or (None if r.rc == 0 else "temporal")) != expect:
                 raise common.InfraError("%s/%s: expected %s, TLC says %s\n%s" % (mod, cfg, expect or "no violation", r.violated or r.rc, r.out[-2500:]))
-            chk.add_tlc(r)
+            tl.append(r)
             out[cfg] = {"distinct": r.distinct, "states": r.states, "result": expect or "holds", "depth": r.depth}
-    chk.part("model_checks", **out)
-    return out
+    return out, tl
 
 
 # ------------------------------------------------------------------------------------------
@@ -426,8 +425,8 @@ def run(chk, tier, replay):
         return run_replay(chk, replay)
     rng = random.Random(common.seed())
     lap("start")
-    model_checks(chk, tier)
-    lap("model checks")
+    bg = ThreadPoolExecutor(max_workers=1)
+    mc_future = bg.submit(model_checks, chk, tier)       # the specifications are model-checked while the code runs
 
     fdir = os.path.join(common.scratch_root(), "c07-files-%d" % os.getpid())
     shutil.rmtree(fdir, ignore_errors=True)
@@ -446,6 +445,11 @@ def run(chk, tier, replay):
         lap("independent readers")
         execs += execs2
         meta.update(meta2)
+        mc_out, mc_tl = mc_future.result()     # raises InfraError if a specification-level expectation failed
+        for r in mc_tl:
+            chk.add_tlc(r)
+        chk.part("model_checks", **mc_out)
+        lap("model checks (joined)")
         judge(chk, execs, meta)
         lap("trace validation")
     finally:
@@ -514,7 +518,7 @@ def explore(chk, tier, fixtures, rng):
 
     # forced schedules: TLC jobs per (reference run, target call, team size)
     jobs = []
-    budget_per_job = 60 if quick else 360
+    budget_per_job = 60 if quick else 500
     for rid, rf in refs.items():
         if rf["mode"] != "f" or "calls" not in rf or rf["verify"]:
             continue
@@ -542,16 +546,19 @@ def explore(chk, tier, fixtures, rng):
                 if first and ntask >= 8 and rf["bs"] > 7 and rf["proj"] is None:
                     jobs.append((rid, ci, 2))
         else:
-            if rf["bs"] not in (7, 40):
+            # thorough budget: ~45 TLC jobs (20 k schedules): every fixture at batch_size 40 (prefetch + main
+            # loop in the first call), every other one at 7, a later (main-loop only) call and smaller teams
+            # for some of them
+            fi = fixtures.index(fx)
+            if rf["proj"] is not None or rf["bs"] not in (7, 40) or not targets:
                 continue
-            if rf["proj"] is not None and (rf["bs"] != 40 or ntask < 8):
+            if rf["bs"] == 7 and fi % 2:
                 continue
-            for n_t, ci in enumerate(targets[:2]):
-                jobs.append((rid, ci, min(ntask, 8)))
-                if n_t == 0 and ntask > 2 and rf["proj"] is None:
-                    jobs.append((rid, ci, 2))
-                    if ntask >= 8 and rf["bs"] == 40:
-                        jobs.append((rid, ci, 3))
+            jobs.append((rid, targets[0], min(ntask, 8)))
+            if rf["bs"] == 40 and ntask > 2 and fi % 2 == 0:
+                jobs.append((rid, targets[0], 2 if fi % 4 == 0 else 3))
+            if rf["bs"] == 40 and len(targets) > 1 and fi % 3 == 0:
+                jobs.append((rid, targets[1], min(ntask, 8)))
     compressed = lambda fx: fx.codec != 0
 
     def gen(job):
@@ -579,14 +586,14 @@ def explore(chk, tier, fixtures, rng):
             tl.append(r)
             out += [(c, "pair") for c in r.cases]
             if not quick or ntask >= 8:
-                r = tlc_schedules(chk, case, "all", simulate=40 if quick else 400, tseed=common.seed() + ci)
+                r = tlc_schedules(chk, case, "all", simulate=40 if quick else 150, tseed=common.seed() + ci)
                 tl.append(r)
                 out += [(c, "sim") for c in r.cases]
             if not quick:
                 # random schedules the lock admits (Lock = TRUE): feasible on any implementation
                 lcase = dict(case)
                 lcase["lock"] = True
-                r = tlc_schedules(chk, lcase, "all", simulate=200, tseed=common.seed() + 7 + ci)
+                r = tlc_schedules(chk, lcase, "all", simulate=100, tseed=common.seed() + 7 + ci)
                 tl.append(r)
                 out += [(c, "lock") for c in r.cases]
         return job, est, out, tl
